@@ -90,6 +90,7 @@ macro_rules! vops { ($reg:expr, $p:expr, $V:ident, $n:expr, [$($i:tt)+]) => {{
     ep!($reg, format!("{}_neg", p), n, |a| { let x: $V<T> = Flat::rd(a); Out::of((-x).flat()) });
     ep_sym!($reg, format!("{}_not", p), n, |a| { let x: $V<T> = Flat::rd(a); Out::of((!x).flat()) });
     // fused multiply-add: inherent method (with broadcast) and the 8 trait forms
+    ep!($reg, format!("{}_mul_add_free", p), 3 * n, |a| { let x: $V<T> = Flat::rd(&a[..n]); let y: $V<T> = Flat::rd(&a[n..2 * n]); let z: $V<T> = Flat::rd(&a[2 * n..]); #[allow(deprecated)] let r: $V<T> = vek::ops::mul_add(x, y, z); Out::of(r.flat()) });
     ep!($reg, format!("{}_mul_add", p), 3 * n, |a| { let x: $V<T> = Flat::rd(&a[..n]); let y: $V<T> = Flat::rd(&a[n..2 * n]); let z: $V<T> = Flat::rd(&a[2 * n..]); Out::of(x.mul_add(y, z).flat()) });
     ep!($reg, format!("{}_mul_add_ss", p), n + 2, |a| { let x: $V<T> = Flat::rd(&a[..n]); Out::of(x.mul_add(a[n], a[n + 1]).flat()) });
     ep!($reg, format!("{}_mul_add_vs", p), 2 * n + 1, |a| { let x: $V<T> = Flat::rd(&a[..n]); let y: $V<T> = Flat::rd(&a[n..2 * n]); Out::of(x.mul_add(y, a[2 * n]).flat()) });
